@@ -87,6 +87,8 @@ fn map_res(r: Result<(), ResolveError>) -> Res {
         Ok(()) => Res::Ok,
         Err(ResolveError::Never) => Res::Never,
         Err(ResolveError::FinishedMany) => Res::Finished,
+        #[allow(unreachable_patterns)]
+        Err(_) => Res::Other,
     }
 }
 
@@ -593,7 +595,7 @@ fn bridge_err(e: &crux_core::bridge::BridgeError) -> Res {
         crux_core::bridge::BridgeError::ProcessResponse(ResolveError::Never) => Res::Never,
         crux_core::bridge::BridgeError::ProcessResponse(ResolveError::FinishedMany) => Res::Finished,
         crux_core::bridge::BridgeError::DeserializeOutput(_) => Res::Undecodable,
-        _ => Res::Never,
+        _ => Res::Other,
     }
 }
 
